@@ -17,6 +17,7 @@ AcceptExpand(e)    == LET x == ExpandAll(e.ns, e.mx) IN
 AcceptBatch(e)     == e.batches = BatchesOf([j \in 1..Len(e.ns) |-> j], e.ns, e.mx)
 Accept(e) == CASE e.op = "scale" -> AcceptScale(e)
                [] e.op = "represent" -> AcceptRepresent(e)
+               [] e.op = "sample" -> AcceptRepresent(e)         \* the plain sampler (utils): the same contract - n draws, all on the support
                [] e.op = "expand" -> AcceptExpand(e)
                [] e.op = "batch" -> AcceptBatch(e)
                [] OTHER -> FALSE
